@@ -54,6 +54,15 @@ for line in sys.stdin:
 				for other in (y, b, tb_):
 					out += ' %d%d%d%d' % (x == other, x != other, x < other, x > other)
 			print(out)
+		elif parts[0] == 'pc':
+			# the serialisation of a date built from each text: the canonical form of its instant, whatever the text looked like
+			out = []
+			for h in parts[1:]:
+				try:
+					out.append(bytes(Date(bytes.fromhex(h))).hex())
+				except Exception as e:
+					out.append('err:%s' % name(e))
+			print(' '.join(out))
 		elif parts[0] == 'a':
 			# the instant handed over as a time-zone-aware datetime (several offsets) and as a naive UTC one: text and instant
 			import datetime as _dt
